@@ -1,0 +1,76 @@
+//go:build verif
+
+package state
+
+// Machine-checked contracts for /verif/govc (contract-based deductive verification).
+// This file contains comments only; it is compiled only with -tags verif and adds no code.
+//
+// Ghost ledger on the state context (DESIGN.md idioms I3/I4): what a smart-contract function
+// does to chain state through StateContextI is recorded in specification-only state.
+//   $bal[c]     balance of client c as read through the context
+//   $out[c]     tokens queued to leave c   (sum of AddTransfer amounts with ClientID == c)
+//   $in[c]      tokens queued to arrive at c
+//   $ntr        number of queued transfers
+//   $saved[k]   identity of the object last written under trie key k by InsertTrieNode (0: none)
+//   $nsaved     number of InsertTrieNode calls that succeeded
+//   $deleted[k] key k was deleted by DeleteTrieNode
+//@ ghost $bal (Str) Int
+//@ ghost $out (Str) Int
+//@ ghost $in (Str) Int
+//@ ghost $ntr Int
+//@ ghost $saved (Str) Int
+//@ ghost $nsaved Int
+//@ ghost $deleted (Str) Bool
+
+//@ iface 0chain.net/chaincore/chain/state.StateContextI.GetClientBalance
+//@   params self clientID
+//@   pure
+//@   ensures result1 == nil ==> result0 == $bal[clientID]
+//@   ensures result0 >= 0
+
+//@ iface 0chain.net/chaincore/chain/state.StateContextI.AddTransfer
+//@   params self t
+//@   modifies $out, $in, $ntr
+//@   ensures result == nil ==> $ntr == old($ntr) + 1
+//@   ensures result == nil ==> $out[t.ClientID] == old($out[t.ClientID]) + t.Amount && $in[t.ToClientID] == old($in[t.ToClientID]) + t.Amount
+//@   ensures result == nil ==> forall c string :: (c != t.ClientID ==> $out[c] == old($out[c])) && (c != t.ToClientID ==> $in[c] == old($in[c]))
+//@   ensures result != nil ==> $ntr == old($ntr) && (forall c string :: $out[c] == old($out[c]) && $in[c] == old($in[c]))
+
+//@ iface 0chain.net/chaincore/chain/state.CommonStateContextI.InsertTrieNode
+//@   params self key v
+//@   modifies $saved, $nsaved, $deleted
+//@   ensures result1 == nil ==> $saved[key] == obj(v) && $nsaved == old($nsaved) + 1 && !$deleted[key]
+//@   ensures result1 == nil ==> forall k string :: k != key ==> $saved[k] == old($saved[k]) && $deleted[k] == old($deleted[k])
+//@   ensures result1 != nil ==> $nsaved == old($nsaved) && (forall k string :: $saved[k] == old($saved[k]) && $deleted[k] == old($deleted[k]))
+
+//@ iface 0chain.net/chaincore/chain/state.StateContextI.DeleteTrieNode
+//@   params self key
+//@   modifies $deleted, $saved
+//@   ensures result1 == nil ==> $deleted[key] && $saved[key] == 0
+//@   ensures result1 == nil ==> forall k string :: k != key ==> $saved[k] == old($saved[k]) && $deleted[k] == old($deleted[k])
+//@   ensures result1 != nil ==> forall k string :: $saved[k] == old($saved[k]) && $deleted[k] == old($deleted[k])
+
+// GetTrieNode decodes the stored value into the object v points to (that object only).
+//@ iface 0chain.net/chaincore/chain/state.CommonStateContextI.GetTrieNode
+//@   params self key v
+//@   modifies payload(v).$all
+
+//@ iface 0chain.net/chaincore/chain/state.StateContextI.GetTransaction
+//@   params self
+//@   pure
+
+//@ iface 0chain.net/chaincore/chain/state.CommonStateContextI.GetBlock
+//@   params self
+//@   pure
+
+//@ iface 0chain.net/chaincore/chain/state.StateContextI.EmitEvent
+//@   params self eventType eventTag index data appender
+//@   pure
+
+//@ iface 0chain.net/chaincore/chain/state.StateContextI.EmitError
+//@   params self err
+//@   pure
+
+//@ iface 0chain.net/chaincore/chain/state.StateContextI.GetSignatureScheme
+//@   params self
+//@   pure
